@@ -398,3 +398,209 @@ Proof.
   destruct (inv_recover c s2 j extra ss2 HI2 Him) as [E2 _].
   split; [|exact E1]. rewrite E2, E1, Hss, L, Hsg. reflexivity.
 Qed.
+
+(* ---------- the installation of an incoming snapshot goes through; convergence ---------- *)
+
+(* such a Ready is outside the model: the acceptor rejects its event (reason R_ENV: a Ready the model assumes raft does not produce), it does not pass *)
+Lemma snapshot_ready_carries_no_entries : forall s r, ready_ok s r = true -> 0 < r_snap r -> r_n r = 0 /\ r_cn r = 0.
+Proof.
+  intros s r H Hs. unfold ready_ok in H. apply N.ltb_lt in Hs. rewrite Hs in H.
+  repeat (apply andb_true_iff in H; destruct H as [H ?]).
+  repeat match goal with G : _ && _ = true |- _ => apply andb_true_iff in G; destruct G end.
+  repeat match goal with G : (_ =? _) = true |- _ => apply N.eqb_eq in G end. auto.
+Qed.
+
+Definition ev_install_tail (i : N) : list event :=
+  [EvAsPrepared i; EvRdSaveSnapBefore i; EvRdSnapFile i; EvRdSaveSnapAfter i; EvRdSaveBefore; EvRdSaveAfter;
+   EvRdApplySnapBefore i; EvAsRaftDone i; EvRsRemoved i; EvRsCopied i; EvRsMarkerGone; EvAsRestored i;
+   EvRdApplySnapAfter i; EvRdReleaseAfter i; EvRdAppendAfter; EvRdAdvance].
+
+(* the installation from the moment the checkpoint is on the local disk *)
+Lemma install_tail_runs : forall c s r i l,
+  rc s = RcRunning -> rdp s = RdBegun r false true -> app s = ApSnapPrepare i -> r_snap r = i -> 0 < i ->
+  r_n r = 0 -> r_cn r = 0 -> r_hs r = true -> r_commit r = i ->
+  lookup i (ckpts s) = Some l -> restoring s = None -> engine s <> None -> queue s = [] ->
+  exists s', run c s (ev_install_tail i) = Ok s' /\ applied s' = i /\ engine s' = Some l /\ rdp s' = RdIdle /\ rs_last s' = i
+    /\ rc s' = RcRunning /\ restoring s' = None /\ app s' = ApApplying (mkBatch 0 0 0 i) /\ queue s' = [] /\ snapi s' = i.
+Proof.
+  intros c s r i l R Erd Eap Ers Hi Hn Hcn Hhs Hcm Hck Hrs Hen Hq.
+  assert (Qi : (0 <? i) = true) by (apply N.ltb_lt; exact Hi).
+  destruct (engine s) as [l0|] eqn:En; [|congruence].
+  destruct (r_tv r) eqn:Tv; destruct (opt_fsync c) eqn:Of.
+  all: eexists; split;
+    [ unfold ev_install_tail; cbn [run];
+      (* EvAsPrepared, EvRdSaveSnapBefore, EvRdSnapFile, EvRdSaveSnapAfter *)
+      unfold step at 1; rewrite Eap, Hck, N.eqb_refl;
+      unfold step at 1; proj; rewrite Erd, Ers, N.eqb_refl, Qi; cbn [negb orb]; rewrite Hck;
+      unfold step at 1; proj; rewrite Ers, N.eqb_refl; cbn [negb];
+      unfold step at 1; proj; rewrite Ers, N.eqb_refl; cbn [negb];
+      (* EvRdSaveBefore, EvRdSaveAfter *)
+      unfold step at 1; proj;
+      unfold step at 1; proj; cbv zeta; rewrite Hn, Hhs, Tv, ?Of; cbn [N.ltb N.compare orb andb negb];
+      (* EvRdApplySnapBefore *)
+      unfold step at 1; proj; rewrite Ers, Qi, N.eqb_refl; cbn [negb]; rewrite Hq; cbn [forallb negb];
+      (* EvAsRaftDone, EvRsRemoved, EvRsCopied, EvRsMarkerGone, EvAsRestored *)
+      unfold step at 1; proj; rewrite N.eqb_refl, N.leb_refl; cbn [negb];
+      unfold step at 1; proj; rewrite R, N.eqb_refl, Hck; cbn [negb];
+      unfold step at 1; proj; rewrite R, N.eqb_refl, Hck; cbn [negb];
+      unfold step at 1; proj; unfold running; proj; rewrite R; cbn [negb andb];
+      unfold step at 1; proj; rewrite N.eqb_refl; cbn [negb];
+      (* EvRdApplySnapAfter, EvRdReleaseAfter, EvRdAppendAfter, EvRdAdvance *)
+      unfold step at 1; proj; rewrite Ers, N.eqb_refl;
+      unfold step at 1; proj; rewrite Ers, N.eqb_refl;
+      unfold step at 1; proj;
+      unfold step at 1; proj; reflexivity
+    | proj; rewrite ?Ers; repeat split; auto ].
+Qed.
+
+Lemma run_app : forall c a b s, run c s (a ++ b) = match run c s a with Ok s1 => run c s1 b | Err e => Err e end.
+Proof. induction a as [|e t IH]; intros b s; simpl; [reflexivity|]. destruct (step c s e); [apply IH | reflexivity]. Qed.
+
+Definition ev_install_head (a : N) (r : ready) : list event := [EvRdBegin r; EvRdPublish 0 (r_snap r) (r_snap r); EvApBefore a 0 (r_snap r)].
+Definition ev_install_end (i : N) : list event := [EvApAfter i; EvApRaftDone i; EvApTriggerBefore i i; EvApTriggerAfter i i].
+Definition ev_fetch (i : N) : list event := [EvFsMark i; EvFsCopy i; EvFsComplete i].
+
+Lemma install_head_runs : forall c s r i,
+  rc s = RcRunning -> rdp s = RdIdle -> app s = ApIdle -> queue s = [] -> ready_ok s r = true -> r_snap r = i -> 0 < i ->
+  exists s', run c s (ev_install_head (applied s) r) = Ok s' /\ rc s' = RcRunning /\ rdp s' = RdBegun r false true
+    /\ app s' = ApSnapPrepare i /\ queue s' = [] /\ ckpts s' = ckpts s /\ restoring s' = restoring s /\ engine s' = engine s /\ ckp s' = ckp s.
+Proof.
+  intros c s r i R Erd Eap Hq Hok Ers Hi.
+  assert (Qi : (0 <? i) = true) by (apply N.ltb_lt; exact Hi).
+  destruct (snapshot_ready_carries_no_entries s r Hok ltac:(lia)) as [Hn Hcn].
+  eexists. split.
+  - unfold ev_install_head. cbn [run].
+    unfold step at 1. rewrite Erd. unfold running. rewrite R, Hok. cbn [negb].
+    unfold step at 1. proj. unfold overlap. rewrite Hcn, Ers, Qi, !N.eqb_refl. cbn [N.ltb N.compare N.eqb andb orb negb].
+    rewrite andb_false_r. cbn [andb].
+    unfold step at 1. proj. rewrite Eap, Hq. cbn [app]. unfold running. proj. rewrite R. cbn [negb b_n b_snap].
+    rewrite !N.eqb_refl. cbn [negb orb].
+    change ([] ++ [mkBatch (r_cfirst r) (r_clast r) 0 i]) with [mkBatch (r_cfirst r) (r_clast r) 0 i].
+    cbn iota. cbn [b_n b_snap]. rewrite Ers, !N.eqb_refl, Qi. cbn [negb orb N.eqb]. reflexivity.
+  - proj. repeat split; auto.
+Qed.
+
+(* the checkpoint of the incoming snapshot gets to the local disk: found there, or fetched *)
+Lemma install_fetch_runs : forall c s i, 0 < i -> fs_clash s i = false ->
+  exists evs s' l, run c s evs = Ok s' /\ lookup i (ckpts s') = Some l
+    /\ (lookup i (ckpts s) = None -> l = range 0 i) /\ (forall l0, lookup i (ckpts s) = Some l0 -> l = l0)
+    /\ rc s' = rc s /\ rdp s' = rdp s /\ app s' = app s /\ queue s' = queue s /\ restoring s' = restoring s /\ engine s' = engine s
+    /\ (evs = [EvFsLocalOk i] \/ evs = ev_fetch i).
+Proof.
+  intros c s i Hi Fc. assert (Qi : (0 <? i) = true) by (apply N.ltb_lt; exact Hi).
+  destruct (lookup i (ckpts s)) as [l|] eqn:L.
+  - exists [EvFsLocalOk i], s, l. cbn [run]. unfold step. rewrite L. repeat split; auto; try congruence.
+  - exists (ev_fetch i). eexists. exists (range 0 i). split; [|split].
+    + unfold ev_fetch. cbn [run].
+      unfold step at 1. rewrite L, Qi.
+      unfold step at 1. rewrite Fc, L, Qi.
+      unfold step at 1. proj. unfold fs_clash in *. proj. rewrite Fc.
+      rewrite lookup_cons, N.eqb_refl. cbn [map fst memN existsb]. rewrite N.eqb_refl. cbn [orb]. reflexivity.
+    + proj. rewrite lookup_cons, N.eqb_refl. reflexivity.
+    + proj. repeat split; auto. intros; discriminate.
+Qed.
+
+Lemma install_end_runs : forall c s i,
+  app s = ApApplying (mkBatch 0 0 0 i) -> applied s = i -> snapi s = i ->
+  exists s', run c s (ev_install_end i) = Ok s' /\ app s' = ApIdle /\ applied s' = i /\ engine s' = engine s /\ rdp s' = rdp s
+    /\ rs_last s' = rs_last s /\ rc s' = rc s /\ queue s' = queue s /\ restoring s' = restoring s.
+Proof.
+  intros c s i Ea Hap Hsn. eexists. split.
+  - unfold ev_install_end. cbn [run].
+    unfold step at 1. rewrite Ea. cbn [b_n]. rewrite Hap, !N.eqb_refl.
+    unfold step at 1. proj. cbn [b_n N.eqb orb].
+    unfold step at 1. proj. rewrite Hap, Hsn, !N.eqb_refl. cbn [andb].
+    unfold step at 1. proj. rewrite Hap, Hsn, !N.eqb_refl. cbn [andb]. reflexivity.
+  - proj. repeat split; auto.
+Qed.
+
+Definition unscheduled (e : event) : Prop := e <> EvPgBefore 4 /\ e <> EvCkPurgeBefore.
+Lemma sched_ok_free : forall c evs s, Forall unscheduled evs -> sched_ok c s evs.
+Proof.
+  induction evs as [|e t IH]; intros s H; simpl; auto. inversion H as [|? ? [H1 H2] Ht]; subst.
+  split; [intros ->; congruence|]. split; [intros ->; congruence|]. destruct (step c s e); auto.
+Qed.
+
+(* the installation of an incoming snapshot goes through: from a node whose loops are idle, for every Ready with a
+   snapshot the raft library may hand out, the sub-steps are enabled one after the other (checkpoint found or fetched,
+   snap file, WAL record, hard state, engine replaced, raft storage updated) and the node ends serving the state at
+   the snapshot's index *)
+Theorem install_completes : forall c s r,
+  Inv c s -> rc s = RcRunning -> rdp s = RdIdle -> app s = ApIdle -> queue s = [] -> fs_clash s (r_snap r) = false ->
+  engine s <> None -> ready_ok s r = true -> 0 < r_snap r ->
+  exists evs s', run c s evs = Ok s' /\ sched_ok c s evs
+    /\ applied s' = r_snap r /\ engine s' = Some (range 0 (r_snap r)) /\ rs_last s' = r_snap r
+    /\ rc s' = RcRunning /\ rdp s' = RdIdle /\ app s' = ApIdle /\ queue s' = [].
+Proof.
+  intros c s r HI R Erd Eap Hq Fc Hen Hok Hi.
+  set (i := r_snap r) in *.
+  destruct (snapshot_ready_carries_no_entries s r Hok Hi) as [Hn Hcn].
+  assert (Hr : r_hs r = true /\ r_commit r = i).
+  { unfold ready_ok in Hok. assert (Q : (0 <? r_snap r) = true) by (apply N.ltb_lt; exact Hi). rewrite Q in Hok.
+    repeat (apply andb_true_iff in Hok; destruct Hok as [Hok ?]).
+    repeat match goal with G : _ && _ = true |- _ => apply andb_true_iff in G; destruct G end.
+    repeat match goal with G : (_ =? _) = true |- _ => apply N.eqb_eq in G end. auto. }
+  destruct Hr as [Hhs Hcm].
+  assert (Hrs : restoring s = None /\ forall l, lookup i (ckpts s) = Some l -> l = range 0 i).
+  { destruct HI as [hi [HP HV]]. unfold running in HV. rewrite R in HV. split; [|intros l Hl; eapply p_ckpts; eauto].
+    destruct (restoring s) as [j|] eqn:Rs; [|reflexivity]. destruct (proj2 (v_pgwal _ _ _ HV) j Rs) as [k Hk]. congruence. }
+  destruct Hrs as [Hrs Hckr].
+  destruct (install_head_runs c s r i R Erd Eap Hq Hok eq_refl Hi) as [s1 [Run1 [R1 [Rd1 [Ap1 [Q1 [Ck1 [Rs1 [En1 Cp1]]]]]]]]].
+  assert (Fc1 : fs_clash s1 i = false) by (unfold fs_clash in *; rewrite Cp1; exact Fc).
+  destruct (install_fetch_runs c s1 i Hi Fc1) as [evf [s2 [l [Run2 [L2 [LN [LS [R2 [Rd2 [Ap2 [Q2 [Rs2 [En2 Hevf]]]]]]]]]]]]].
+  assert (Hl : l = range 0 i).
+  { destruct (lookup i (ckpts s1)) as [l0|] eqn:L1; [|apply LN; reflexivity]. rewrite (LS l0 eq_refl). apply Hckr. rewrite <- Ck1. exact L1. }
+  subst l.
+  destruct (install_tail_runs c s2 r i (range 0 i)) as [s3 [Run3 [A3 [E3 [Rd3 [Rl3 [R3 [Rs3 [Ap3 [Q3 Sn3]]]]]]]]]]; [first [congruence | exact Hi | reflexivity] .. |].
+  destruct (install_end_runs c s3 i Ap3 A3 Sn3) as [s4 [Run4 [Ap4 [A4 [E4 [Rd4 [Rl4 [R4 [Q4 Rs4]]]]]]]]].
+  exists (ev_install_head (applied s) r ++ evf ++ ev_install_tail i ++ ev_install_end i), s4.
+  split; [rewrite run_app, Run1, run_app, Run2, run_app, Run3; exact Run4|].
+  split.
+  { apply sched_ok_free. unfold ev_install_head, ev_install_tail, ev_install_end.
+    repeat (apply Forall_app; split); try (destruct Hevf as [-> | ->]; unfold ev_fetch);
+      repeat constructor; discriminate. }
+  repeat split; congruence.
+Qed.
+
+(* startRaft leaves the apply loop, its queue and the backup loop as the death left them: idle *)
+Lemma restart_ev_keeps : forall c s e s', is_restart_ev e -> app s = ApIdle -> step c s e = Ok s' ->
+  app s' = ApIdle /\ queue s' = queue s /\ ckp s' = ckp s.
+Proof.
+  intros c s e s' He Ea H. destruct e; try destruct He; unfold step in H; step_inv H; proj; auto; congruence.
+Qed.
+
+Lemma restart_evs_keep : forall c evs s s', Forall is_restart_ev evs -> app s = ApIdle -> run c s evs = Ok s' ->
+  app s' = ApIdle /\ queue s' = queue s /\ ckp s' = ckp s.
+Proof.
+  induction evs as [|e t IH]; intros s s' Hf Ea H; simpl in H; [injection H as <-; auto|].
+  inversion Hf as [|? ? He Ht]; subst. destruct (step c s e) as [s1|] eqn:E; [|discriminate].
+  destruct (restart_ev_keeps c s e s1 He Ea E) as [A [B C]]. destruct (IH s1 s' Ht A H) as [A' [B' C']].
+  repeat split; congruence.
+Qed.
+
+(* CONVERGENCE. A replica killed anywhere, also anywhere inside the installation of a snapshot, restarts (no manual
+   repair), and from the restarted node the installation of every snapshot its leader may send (every Ready with a
+   snapshot that the raft library may hand out in that state: the snapshot is ahead of the local log) goes through and
+   ends with the replica serving the leader's state at the snapshot's index; the invariant holds again, so this
+   repeats after any further death *)
+Theorem follower_converges : forall c s, fixed c -> Inv c s -> rc s = RcStart ->
+  exists evs1 s1, run c s evs1 = Ok s1 /\ running s1 = true /\ Inv c s1 /\
+    forall r, ready_ok s1 r = true -> 0 < r_snap r ->
+    exists evs2 s2, run c s1 evs2 = Ok s2 /\ applied s2 = r_snap r /\ engine s2 = Some (range 0 (r_snap r))
+                    /\ rs_last s2 = r_snap r /\ running s2 = true /\ Inv c s2.
+Proof.
+  intros c s Hfx HI R.
+  destruct (restart_succeeds c s HI R) as [evs [s1 [Hrun [Hrn [_ [Hen [_ [_ [Hev [Hsg [Hu Hrd]]]]]]]]]]].
+  pose proof (inv_run c evs s s1 Hfx HI (sched_ok_restart c evs s Hev) Hrun) as HI1.
+  assert (Hidle : app s = ApIdle /\ queue s = [] /\ ckp s = CkIdle).
+  { destruct HI as [hi [HP HV]]. unfold running in HV. rewrite R in HV. destruct HV as [_ [_ [A [_ [B [_ [_ [C _]]]]]]]]. auto. }
+  destruct Hidle as [Ia [Iq Ic]].
+  destruct (restart_evs_keep c evs s s1 Hev Ia Hrun) as [Ka [Kq Kc]].
+  exists evs, s1. split; [exact Hrun|]. split; [exact Hrn|]. split; [exact HI1|].
+  intros r Hok Hi.
+  assert (R1 : rc s1 = RcRunning) by (apply running_true; exact Hrn).
+  destruct (install_completes c s1 r HI1 R1 Hrd) as [evs2 [s2 [Run2 [Sch [A2 [E2 [L2 [R2 _]]]]]]]]; auto; try congruence.
+  { unfold fs_clash. rewrite Kc, Ic. reflexivity. }
+  exists evs2, s2. split; [exact Run2|]. split; [exact A2|]. split; [exact E2|]. split; [exact L2|].
+  split; [unfold running; rewrite R2; reflexivity|]. eapply inv_run; eauto.
+Qed.
